@@ -182,6 +182,9 @@ func c20Known(msg string) string {
 }
 
 func runC20(c Case, st *Stats) error {
+	if c.Extra["closerace"] != nil {
+		return runC20Close(c, st)
+	}
 	rand.Seed(c.Seed)
 	root := newDir("c20")
 	defer os.RemoveAll(root)
